@@ -31,6 +31,8 @@ var writerSpecs = []writerSpec{
 		"lisp.(*LEnv).evalSExprCells": "clears the flag while arguments are evaluated and restores it by defer",
 		"lisp.builtinFunCall":         "funcall transfers its own tail position to the callee",
 		"lisp.builtinApply":           "apply transfers its own tail position to the callee",
+		"lisp.(*LEnv).funCall":        "clears the flag when the frame is reused by a tail call (a new call starts non-terminal)",
+		"lisp.(*LEnv).specialOpCall":  "clears the flag when the frame is reused by a tail call (a new call starts non-terminal)",
 	}},
 	{field: "lisp.CallFrame.TROBlock", floor: 6, permitted: map[string]string{
 		"lisp.(*LEnv).macroCall": "macro expansion boundary",
